@@ -144,10 +144,10 @@ def build(config, repo=REPO):
         shutil.rmtree(out, ignore_errors=True)
         os.makedirs(os.path.dirname(out), exist_ok=True)
         os.replace(tmp, out)
-        # keep the cache small: drop fact sets of other trees (keep 6 newest)
+        # keep the cache small: drop fact sets of other trees (keep 40 newest)
         root = os.path.join(CACHE, "facts")
         olds = sorted((os.path.getmtime(os.path.join(root, d)), d) for d in os.listdir(root))
-        for _, d in olds[:-6]:
+        for _, d in olds[:-40]:
             shutil.rmtree(os.path.join(root, d), ignore_errors=True)
         log("facts built in %.1fs -> %s" % (time.time() - t0, out))
         return out
